@@ -17,7 +17,7 @@ func propC02() Property {
 		ID: "C02",
 		Explanation: "Lockset and shape rules over every function of the module. R1: reading the next outbound number that is stamped into tag 34, persisting/incrementing it, every store to the send queue and every send on the connection channel execute with session.sendMutex held (entry requirements propagated to all callers, roots must satisfy them), and numbering→enqueue happens in ONE critical section. " +
 			"R2: the stamped number is the number read (re-read after a store reset), the persisted number/bytes are the stamped number and the built bytes, the persist error is returned, persist does exactly one of save+incr / incr. R3: bytes are enqueued iff numbering+persist succeeded. R4: the queue is only appended to, truncated to empty, or cut at the index whose send failed; what is sent is the queue's own element in iteration order. " +
-			"R5: first-time numbering holds resendMutex(R) (or is the Logon/Logout drop-and-send confined to the session goroutine), the replay loop holds resendMutex(W) across IterateMessages, resendMutex is never taken while sendMutex is held and never re-taken inside the W region. R6: the application-side send API only queues: it reaches no channel send and does not read the session state. R7: where a function both empties the send queue and resets the store, the two happen under one acquisition of sendMutex with no release in between. R8 (shared with C16): in every store, save-and-increment saves first and increments only on the nil-error edge, or is one transaction — so the bytes are retrievable under n before n counts as used.",
+			"R5: first-time numbering holds resendMutex(R) (or is the Logon/Logout drop-and-send confined to the session goroutine), the replay loop holds resendMutex(W) across IterateMessages and across whatever the replay function sends after it (the closing gap fill), resendMutex is never taken while sendMutex is held and never re-taken inside the W region. R6: the application-side send API only queues: it reaches no channel send and does not read the session state. R7: where a function both empties the send queue and resets the store, the two happen under one acquisition of sendMutex with no release in between. R8 (shared with C16): in every store, save-and-increment saves first and increments only on the nil-error edge, or is one transaction — so the bytes are retrievable under n before n counts as used. R9 (shared with C17): the file store appends at the end of the body file and indexes that offset, so the bytes stored under earlier numbers stay retrievable after a reopen.",
 		NotDecided: "atomicity of the store implementation itself (C16/C17), fairness (that every number is eventually transmitted), data races on other fields. Observations (not verdicts): store.Reset in the Logon path runs without sendMutex; exported ResetSession touches state from a foreign goroutine.",
 		Rules: []RuleDef{
 			{ID: "C02-R1", Desc: "number→stamp→persist→enqueue→send under sendMutex, one section", Min: 8, Run: c02R1},
@@ -28,6 +28,7 @@ func propC02() Property {
 			{ID: "C02-R6", Desc: "application send API is queue-only", Min: 2, Run: c02R6},
 			{ID: "C02-R7", Desc: "queue drop and store reset are one critical section", Min: 1, Run: c02R7},
 			{ID: "C02-R8", Desc: "every store: save-and-increment = save (nil) then increment, or one transaction (= C16-R6)", Min: 4, Run: c16R6},
+			{ID: "C02-R9", Desc: "file store: the bytes under n stay retrievable — appended at the end, indexed where written (= C17-R2)", Min: 3, Run: c17R2},
 		},
 	}
 }
@@ -35,13 +36,13 @@ func propC02() Property {
 // ---- roles ---------------------------------------------------------------------------
 
 type sessRoles struct {
-	p                                 *Prog
-	fStore, fToSend, fMsgOut, fState  *types.Var
-	tagSeq                            int64
-	prep                              []*ssa.Function // read next sender + stamp 34
-	persist                           []*ssa.Function // call SaveAndIncr / IncrNextSender on session.store
-	senders                           []*ssa.Function // contain a send on messageOut
-	flushers                          []*ssa.Function // range over toSend calling a sender
+	p                                *Prog
+	fStore, fToSend, fMsgOut, fState *types.Var
+	tagSeq                           int64
+	prep                             []*ssa.Function // read next sender + stamp 34
+	persist                          []*ssa.Function // call SaveAndIncr / IncrNextSender on session.store
+	senders                          []*ssa.Function // contain a send on messageOut
+	flushers                         []*ssa.Function // range over toSend calling a sender
 }
 
 // storeCall: call instr invoking MessageStore method `name` on session.store.
@@ -363,7 +364,9 @@ func c02R2(c *Ctx) {
 		// (a) every stamp of tag 34 takes a NextSender read
 		for _, st := range p.setTagCalls(fn, r.tagSeq) {
 			o := p.Origin(st.val)
-			ok := o.All(func(x *Org) bool { return x.IsCallTo("(MessageStore).NextSenderMsgSeqNum") && isFieldOrg(x.Recv, r.fStore) })
+			ok := o.All(func(x *Org) bool {
+				return x.IsCallTo("(MessageStore).NextSenderMsgSeqNum") && isFieldOrg(x.Recv, r.fStore)
+			})
 			_, path := st.recv.FieldPath()
 			c.Check(ok && contains(path, "Header"), name, p.InstrPos(st.call), "stamp-origin", "MsgSeqNum(34) in Header ← store.NextSenderMsgSeqNum()",
 				"MsgSeqNum(34) is stamped from "+o.String()+", not from the store's next outbound number")
@@ -737,6 +740,27 @@ func c02R5(c *Ctx) {
 	}
 	if nIter == 0 {
 		c.Undecided("", "-", "no-replay", "no function iterates stored messages of session.store")
+	}
+	// (b') everything the replay function itself sends after the iteration (the tail gap fill) is
+	// still inside the W region: the reply to a ResendRequest is one contiguous run
+	for _, fn := range p.FuncsIn(modPath) {
+		iters := r.storeCalls(fn, "IterateMessages", "GetMessages")
+		if len(iters) == 0 {
+			continue
+		}
+		for _, cl := range Calls(fn) {
+			cal := cl.Common().StaticCallee()
+			if cal == nil || !p.InModule(cal) || !InstrDominates(iters[0].(ssa.Instruction), cl.(ssa.Instruction)) {
+				continue
+			}
+			sends := p.reachesAny(cal, func(f *ssa.Function) bool { return containsFn(r.prep, f) || len(p.sendsOn(f, r.fMsgOut)) > 0 }) || containsFn(r.prep, cal)
+			if !sends {
+				continue
+			}
+			held := p.Locks(fn).HeldAt(cl.(ssa.Instruction))
+			c.Check(held[resendMu+":W"], FuncName(fn), p.InstrPos(cl.(ssa.Instruction)), "tail-send-under-W", "what the replay sends after the iteration is still under resendMutex(W)",
+				"the replay function sends ("+FuncName(cal)+") after the iteration without holding resendMutex for writing: a first-time message from another goroutine can be numbered and transmitted between the last replayed message and the closing gap fill, whose NewSeqNo then points at a number already used")
+		}
 	}
 	// (c) lock order, (d) no re-acquisition inside W
 	for _, fn := range p.FuncsIn(modPath) {
